@@ -238,6 +238,10 @@ def binop(st: State, op: str, a: V, b: V, spec=False, alloc=None) -> V:
         raise Unsupported("numeric op %s" % op)
     if ka in ("str", "bytes") and ka == kb and op == "+":
         return V(a.ty, z3.Concat(a.t, b.t))
+    if ka == "str" and op == "%" and kb == "tuple" and all(i.ty.kind == "str" for i in b.items):
+        # %-formatting with a tuple of strings: an opaque function of the template and each operand
+        f = UF("fmt_strs%d" % len(b.items), *([z3.StringSort()] * (len(b.items) + 2)))
+        return V(STR, f(a.t, *[i.t for i in b.items]))
     if ka == "str" and op == "%":
         # %-formatting: value is an opaque function of the operands
         return V(STR, UF("fmt_%s" % b.ty.kind, z3.StringSort(), z3.IntSort(), z3.StringSort())(a.t, box(b).t))
@@ -336,3 +340,22 @@ def slice_seq(t, lo, hi):
     length = z3.Length(t)
     lo2, hi2 = clamp_slice(length, lo, hi)
     return z3.SubSeq(t, lo2, z3.If(hi2 - lo2 < 0, 0, hi2 - lo2))
+
+
+def card(dom):
+    """number of keys of a dict domain (uninterpreted; facts are emitted at the mutation sites: CARD rule)"""
+    return UF("card_%s" % dom.sort().domain(), dom.sort(), z3.IntSort())(dom)
+
+
+def card_store_facts(st, dom, k, flag):
+    """facts relating card before/after  dom[k] := flag"""
+    new = z3.Store(dom, k, z3.BoolVal(flag))
+    c0, c1 = card(dom), card(new)
+    if flag:
+        st.assume(c1 == c0 + z3.If(z3.Select(dom, k), 0, 1))
+    else:
+        st.assume(c1 == c0 - z3.If(z3.Select(dom, k), 1, 0))
+    st.assume(c0 >= 0)
+    st.assume(c1 >= 0)
+    st.assume(z3.Implies(z3.Select(dom, k), c0 >= 1))
+    return new
